@@ -501,6 +501,10 @@ def m1_choreo(ctx: Any, prog: Program) -> None:
             ok = sign_ok(ctx, 'C20.M1', mod, fold, rcls or cls, toks(hoist(ri)), toks(hoist(wi)), wf, label, qual)
             ctx.check('C20.M1', ok, mod, wf, f'{label}: reader `{rs}`, writer `{ws}` differ in signedness' + ('' if ok else ' where the value can leave the common range'), func=qual, text=label)
             return
+        if '[' in rs or '[' in ws:
+            # a branch the configuration does not decide: no verdict on this pair
+            ctx.shape('C20.M1', False, mod, wf, f'{label}: a gate is not decided by the configuration (reader `{rs}`, writer `{ws}`)', func=qual, text=label)
+            return
         ctx.check('C20.M1', False, mod, wf, f'{label}: parse_binary consumes `{rs}` but export_binary produces `{ws}`', func=qual, text=label)
 
     pair('Tag', 'Tag list', {}, {})
@@ -840,6 +844,8 @@ def reader_keywords(mod: Any, fn: ast.AST, fold: Folder) -> Tuple[Set[str], Set[
         for a in ast.walk(fn):
             if isinstance(a, ast.For) and isinstance(a.target, ast.Tuple) and len(a.target.elts) == 2 and isinstance(a.target.elts[1], ast.Name) and 'tok' in U(a.iter).lower():
                 tok_names.add(a.target.elts[1].id)
+            if isinstance(a, ast.For) and isinstance(a.target, ast.Name) and isinstance(a.iter, ast.Call) and 'tok' in U(a.iter.func).lower():
+                tok_names.add(a.target.id)                  # `for key_name in tokenizer.block(...)`
             if isinstance(a, ast.Assign) and isinstance(a.value, ast.Call) and isinstance(a.value.func, ast.Attribute):
                 v_ = a.value
                 if v_.func.attr in ('casefold', 'lower') and isinstance(v_.func.value, ast.Name) and v_.func.value.id in tok_names:
